@@ -100,6 +100,16 @@ def ops(tier, cfg):
             L.append((f"solve[{t}|3]", t, (3, 3), t, (3,), t, (3,), "r = solve(a,b);", True, False))
             L.append((f"trace[{t}|3]", t, (3, 3), t, (1,), t, (1,), "r(0) = trace(a);", False, False))
             L.append((f"cross[{t}|3]", t, (3,), t, (3,), t, (3,), "r = cross(a,b);", False, False))
+        # batched spellings: the trailing matrix of a rank-3 tensor ends where the tensor ends, so a kernel that loads a 3x3 matrix as
+        # 3x4 or 4x4 is only safe if it stops short there (B chosen so that the object has no tail padding at any alignment)
+        # (the batched adjoint / cofactor overloads do not compile in the pinned tree - no two-pointer _adjoint/_cofactor kernel - so there is nothing to run)
+        if fp:
+            for nb in (2, 3, 4):
+                for B in ((16,) if tier == "quick" else (4, 8, 16)):
+                    L.append((f"batch_determinant[{t}|{B}x{nb}x{nb}]", t, (B, nb, nb), t, (1,), t, (B,), "r = determinant(a);", False, False))
+                    L.append((f"batch_inverse[{t}|{B}x{nb}x{nb}]", t, (B, nb, nb), t, (1,), t, (B, nb, nb), "r = inverse(a);", False, False))
+                    L.append((f"batch_transpose[{t}|{B}x{nb}x{nb}]", t, (B, nb, nb), t, (1,), t, (B, nb, nb), "r = transpose(a);", False, False))
+                    L.append((f"batch_trace[{t}|{B}x{nb}x{nb}]", t, (B, nb, nb), t, (1,), t, (B,), "r = trace(a);", False, False))
         # einsum / permute
         L.append((f"einsum_general[{t}|2x3x{W + 1}.{W + 1}x2]", t, (2, 3, W + 1), t, (W + 1, 2), t, (2, 3, 2), "r = einsum<Index<0,1,2>,Index<2,3>>(a,b);", False, False))
         L.append((f"einsum_nest[{t}|3x{W + 1}.3x2]", t, (3, W + 1), t, (3, 2), t, (W + 1, 2), "r = einsum<Index<0,1>,Index<0,2>>(a,b);", False, False))
